@@ -103,6 +103,19 @@ def gen_table(rng):
 
 
 # ------------------------------------------------------------------ posteriors with known conditionals
+class OffsetPost:
+    """The same posterior with a constant added to its logarithm (same conditionals)."""
+
+    def __init__(self, inner, c):
+        self.inner, self.c = inner, c
+
+    def __call__(self, t):
+        return self.inner(t) + self.c
+
+    def __getattr__(self, name):
+        return getattr(self.inner, name)
+
+
 class GaussPost:
     def __init__(self, rng, d, correlated):
         self.d = d
@@ -255,7 +268,12 @@ def run_job(job, rec):
                 lo = max(lo, post.loc[i] + 1e-3 * post.s[i])
                 point[i] = max(point[i], lo + 0.01 * w)
             bounds.append((float(lo), float(hi)))
-        ctx = {"posterior": post.kind, "d": d, "off_mode": off, "narrow_bounds": narrow, "point": point, "bounds": bounds}
+        # log-posteriors are defined up to an additive constant; real ones (log-likelihoods of thousands of data) sit at -1e3 .. -1e7
+        offset = float(rng.choice([0.0, 0.0, -1.0, 1.0]) * 10.0 ** rng.uniform(2, 6.6))
+        if offset != 0.0:
+            post = OffsetPost(post, offset)
+            rec.count("cases:log_posterior_offset")
+        ctx = {"posterior": post.kind, "d": d, "off_mode": off, "narrow_bounds": narrow, "point": point, "bounds": bounds, "log_posterior_offset": offset}
         rec.context = ctx
         correlated = post.kind == "gauss-correlated"
         rec.case(digest("post", post.kind, point, bounds, getattr(post, "P", None)), nontrivial=correlated or off)
@@ -295,7 +313,7 @@ def run_job(job, rec):
             Lg = np.array([L(v) for v in xg])
             good = pg > 0
             ratio = np.log(pg[good]) - Lg[good]
-            rec.check(bool(np.ptp(ratio) <= 1e-8), "not-proportional-to-conditional",
+            rec.check(bool(np.ptp(ratio) <= 1e-8 + 16 * np.finfo(float).eps * abs(offset)), "not-proportional-to-conditional",
                       lambda: f"variable {i}: log(tabulated) - log(true conditional through the point) varies by {np.ptp(ratio):.3e} over the grid ({post.kind})", ictx)
             fine = np.linspace(lo, hi, 20001)
             Lf = np.array([L(v) for v in fine])
@@ -343,7 +361,7 @@ def run_job(job, rec):
                     good = pr2[:, i] > 0
                     ratio = np.log(pr2[good, i]) - np.array([L2(v) for v in ax2[good, i]])
                     worst = max(worst, float(np.ptp(ratio)))
-                rec.check(worst <= 1e-8, "not-proportional-to-conditional",
+                rec.check(worst <= 1e-8 + 16 * np.finfo(float).eps * abs(offset), "not-proportional-to-conditional",
                           lambda: f"after the conditioning point was moved in place, the tabulated conditionals are not those through the new point (log-ratio varies by {worst:.3e}; {post.kind})", ctx)
 
         # conditional samples: inside the bounds and distributed as the true conditionals
